@@ -361,3 +361,43 @@ func (x *Exec) execAppend(st *State, sliceT types.Type, s *Term, tv Val, tT type
 	_ = fmt.Sprint
 	return res
 }
+
+// ---- encoding/binary.LittleEndian: exact byte-level semantics (quantifier-free) ----
+
+func init() {
+	for _, n := range []struct {
+		name string
+		w    int
+	}{{"Uint16", 2}, {"Uint32", 4}, {"Uint64", 8}} {
+		w := n.w
+		libTable["(encoding/binary.littleEndian)."+n.name] = func(x *Exec, fr *Frame, st *State, fn *ssa.Function, args []Val, in ssa.Instruction, rt types.Type) Val {
+			b := x.toTerm(args[1], nil)
+			x.assert(st, "index", x.src(in), mkLe(mkInt(int64(w)), sliceLen(b)), in.Pos(), nil)
+			bt := types.Universe.Lookup("byte").Type()
+			var sum *Term = mkInt(0)
+			for k := 0; k < w; k++ {
+				by := x.sliceAt(st, b, bt, mkInt(int64(k)))
+				x.assume(st, inRange(by, 8, false))
+				sum = mkAdd(sum, mkMul(by, mkBig(pow2(8*k))))
+			}
+			return sum
+		}
+		libTable["(encoding/binary.littleEndian).Put"+n.name] = func(x *Exec, fr *Frame, st *State, fn *ssa.Function, args []Val, in ssa.Instruction, rt types.Type) Val {
+			b := x.toTerm(args[1], nil)
+			v := x.toTerm(args[2], nil)
+			x.assert(st, "index", x.src(in), mkLe(mkInt(int64(w)), sliceLen(b)), in.Pos(), nil)
+			bt := types.Universe.Lookup("byte").Type()
+			hn, so := x.env.te.elemHeap(bt)
+			x.checkWrite(st, hn, sliceRef(b), in.Pos())
+			h := st.H(hn, so)
+			arr := mkSelect(h, sliceRef(b))
+			for k := 0; k < w; k++ {
+				by := mkMod(mkDiv(v, mkBig(pow2(8*k))), mkInt(256))
+				arr = mkStore(arr, mkAdd(sliceOff(b), mkInt(int64(k))), by)
+			}
+			st.setH(hn, mkStore(h, sliceRef(b), arr))
+			x.unit.Trusted["encoding/binary.LittleEndian (built-in byte-level semantics)"] = true
+			return nil
+		}
+	}
+}
